@@ -1,7 +1,8 @@
 #!/bin/sh
-# Idempotent, offline: overlay venv on top of /venv with z3-solver from the local wheelhouse.
+# Idempotent, offline: overlay venv (next to this script) on top of /venv with z3-solver from the local wheelhouse.
 set -e
-V=/verif/.venv
+HERE=$(cd "$(dirname "$0")" && pwd)
+V="$HERE/.venv"
 if [ ! -x "$V/bin/python" ] || ! "$V/bin/python" -c "import z3, numpy, pandas, sklearn" 2>/dev/null; then
   rm -rf "$V"
   /venv/bin/python -m venv "$V"
